@@ -1764,3 +1764,338 @@ def locations_c10(ctx, pf):
 
 
 extra_c10 = _chain(extra_c10, locations_c10)
+
+
+# ================================================================== round 7
+def scribble_results_c15(ctx, pf):
+    """every builder's result is fully owned by the caller: after scribbling over EVERYTHING the first result holds (values and, for sparse
+    matrices, the index arrays; structural in-place methods such as eliminate_zeros on coefficients with exact zeros), a second call with
+    the same inputs must give what the first call gave (snapshot taken before the scribble)"""
+    n = 0
+    rng = random.Random(f"c15scribble-{ctx.seed}")
+    for cname in gen.CLASSES:
+        fs = gen.mesh_case(rng, cname, nmax=4, nmin=2)
+        mesh = gen.build_mesh(pf, cname, fs)
+        dims = tuple(int(k) for k in mesh.dims)
+        L = {"cls": cname, "faces": [list(map(float, f)) for f in fs]}
+        coef = ival(rng, dims, 0, 2).astype(float)          # exact zeros in some cells
+        coef.flat[0] = 0.0
+        phi = pf.CellVariable(mesh, ival(rng, dims, 1, 5) + 0.5); beta = pf.CellVariable(mesh, coef)
+        fa = [ival(rng, s, 0, 2).astype(float) for s in face_shapes(mesh)]
+        D = mkface(pf, mesh, fa); FL = pf.fluxLimiter("SUPERBEE")
+        calls = [("linearSourceTerm", lambda: pf.linearSourceTerm(beta)), ("constantSourceTerm", lambda: pf.constantSourceTerm(beta)),
+                 ("transientTerm", lambda: pf.transientTerm(phi, 0.5, beta)), ("diffusionTerm", lambda: pf.diffusionTerm(D)),
+                 ("convectionTerm", lambda: pf.convectionTerm(D)), ("convectionUpwindTerm", lambda: pf.convectionUpwindTerm(D)),
+                 ("convectionTVDupwindRHSTerm", lambda: pf.convectionTVDupwindRHSTerm(D, phi, FL)), ("divergenceTerm", lambda: pf.divergenceTerm(D)),
+                 ("gradientTerm", lambda: pf.gradientTerm(phi)), ("boundaryConditionsTerm", lambda: pf.boundaryConditionsTerm(phi.BCs)),
+                 ("linearMean", lambda: pf.linearMean(phi)), ("harmonicMean", lambda: pf.harmonicMean(beta)), ("upwindMean", lambda: pf.upwindMean(phi, D))]
+        def flat(r):
+            out = []
+            def walk(x):
+                if isinstance(x, (tuple, list)):
+                    for y in x: walk(y)
+                elif hasattr(x, "_xvalue"):
+                    out.extend([("arr", x._xvalue), ("arr", x._yvalue), ("arr", x._zvalue)])
+                elif hasattr(x, "_value"):
+                    out.append(("arr", x._value))
+                elif hasattr(x, "tocsr"):
+                    out.append(("sp", x))
+                elif isinstance(x, np.ndarray):
+                    out.append(("arr", x))
+            walk(r); return out
+        def dense(items):
+            return [np.asarray(x.toarray(), dtype=float) if k == "sp" else np.array(x, dtype=float) for k, x in items]
+        for nm, call in calls:
+            try:
+                with np.errstate(all="ignore"):
+                    r1 = flat(call()); ref = dense(r1)
+                    for k, x in r1:
+                        if k == "sp":
+                            for attr in ("eliminate_zeros", "sum_duplicates", "sort_indices"):
+                                if hasattr(x, attr):
+                                    getattr(x, attr)()
+                            for attr in ("data", "indices", "indptr", "row", "col"):
+                                a = getattr(x, attr, None)
+                                if isinstance(a, np.ndarray) and a.size and a.flags.writeable:
+                                    a[...] = 0
+                        elif isinstance(x, np.ndarray) and x.size and x.flags.writeable:
+                            x[...] = -7.0
+                    r2 = dense(flat(call()))
+                n += 1
+                if len(r2) != len(ref) or any(a.shape != b.shape or not np.array_equal(a, b, equal_nan=True) for a, b in zip(r2, ref)):
+                    ctx.violation(f"c15:{cname}:{nm}:scribble", f"{cname}: after the first result of {nm} was overwritten in place (values, index arrays, eliminate_zeros) a second call with the same inputs returns something else: results share storage with each other or with a hidden cache", dict(L, call=nm))
+            except Exception as ex:
+                ctx.violation(f"c15:{cname}:{nm}:scribble-raise", f"{cname}: {nm} after scribbling over its first result raised {type(ex).__name__}: {ex}", dict(L, call=nm))
+    return n
+
+
+def inplace_ops_c14(ctx, pf):
+    """augmented assignments (v += x, ...) are operator applications too: the library defines no in-place operators, so `v += x` binds the name
+    to a NEW variable and leaves the object other references point to unchanged"""
+    import operator as op
+    n = 0
+    rng = random.Random(f"c14iop-{ctx.seed}")
+    IOPS = [("+=", op.iadd), ("-=", op.isub), ("*=", op.imul), ("/=", op.itruediv), ("**=", op.ipow)]
+    for cname in ("Grid1D", "CylindricalGrid2D", "Grid3D"):
+        fs = gen.mesh_case(rng, cname, nmax=3, nmin=2)
+        mesh = gen.build_mesh(pf, cname, fs)
+        dims = tuple(int(k) for k in mesh.dims)
+        L = {"cls": cname, "faces": [list(map(float, f)) for f in fs]}
+        for kind in ("cell", "face"):
+            for sym, f in IOPS:
+                for oname, mk in (("2.5", lambda: 2.5), ("variable", None), ("ndarray", None)):
+                    try:
+                        with np.errstate(all="ignore"):
+                            if kind == "cell":
+                                v = pf.CellVariable(mesh, ival(rng, dims, 1, 5) + 0.5); v.BCs.left.fixedValue(2.0); v.apply_BCs()
+                                other = {"2.5": 2.5, "variable": pf.CellVariable(mesh, ival(rng, dims, 1, 3) + 0.25), "ndarray": ival(rng, dims, 1, 3) + 0.75}[oname]
+                                snap = [np.array(v._value, dtype=float), np.array(v.BCs.left.c, dtype=float)]
+                                now = lambda: [np.array(v._value, dtype=float), np.array(v.BCs.left.c, dtype=float)]
+                            else:
+                                if oname == "ndarray":
+                                    continue
+                                v = mkface(pf, mesh, [ival(rng, s, 1, 5) + 0.5 for s in face_shapes(mesh)])
+                                other = {"2.5": 2.5, "variable": mkface(pf, mesh, [ival(rng, s, 1, 3) + 0.25 for s in face_shapes(mesh)])}[oname]
+                                snap = [np.array(a, dtype=float) for a in (v._xvalue, v._yvalue, v._zvalue)]
+                                now = lambda: [np.array(a, dtype=float) for a in (v._xvalue, v._yvalue, v._zvalue)]
+                            r = f(v, other)
+                        n += 1
+                        if r is v or any(not np.array_equal(a, b) for a, b in zip(snap, now())):
+                            ctx.violation(f"c14:{kind}:inplace:{sym}", f"{cname}: `{kind}var {sym} {oname}` changed the object its left operand referred to (other references to it see the change) instead of producing a new variable", dict(L, kind=kind, op=sym, operand=oname)); break
+                        if kind == "cell" and (np.shares_memory(np.asarray(r._value), np.asarray(v._value)) or r.BCs is v.BCs):
+                            ctx.violation(f"c14:{kind}:inplace-alias:{sym}", f"{cname}: the result of `{kind}var {sym} {oname}` shares storage / boundary conditions with the old object", dict(L, kind=kind, op=sym, operand=oname)); break
+                    except TypeError:
+                        continue          # an operator the class does not support with this operand kind: not this probe's business
+                    except Exception as ex:
+                        ctx.violation(f"c14:{kind}:inplace-raise:{sym}", f"{cname}: `{kind}var {sym} {oname}` raised {type(ex).__name__}: {ex}", dict(L, kind=kind, op=sym, operand=oname)); break
+    return n
+
+
+def sparse_formats_c04(ctx, pf):
+    """matrix terms in every scipy sparse format / class (a user-built or converted term: csc, coo, lil, dia, csr_matrix, transposed twice):
+    the solve is the one the csr_array form gives"""
+    import scipy.sparse as sp
+    n = 0
+    rng = random.Random(f"c04fmt-{ctx.seed}")
+    conv = [("tocsc()", lambda M: M.tocsc()), ("tocoo()", lambda M: M.tocoo()), ("tolil()", lambda M: M.tolil()), ("todia()", lambda M: M.todia()),
+            ("csr_matrix(M)", lambda M: sp.csr_matrix(M)), ("csc_matrix(M)", lambda M: sp.csc_matrix(M)), ("M.T.T", lambda M: M.T.T), ("M.T.tocsr().T", lambda M: M.T.tocsr().T)]
+    for cname in ("Grid1D", "CylindricalGrid1D", "Grid2D", "PolarGrid2D", "Grid3D"):
+        fs = gen.mesh_case(rng, cname, nmax=3, nmin=2)
+        mesh = gen.build_mesh(pf, cname, fs)
+        dims = tuple(int(k) for k in mesh.dims)
+        L = {"cls": cname, "faces": [list(map(float, f)) for f in fs]}
+        try:
+            with np.errstate(all="ignore"):
+                u = mkface(pf, mesh, [ival(rng, s, 1, 3) + 0.5 for s in face_shapes(mesh)])       # non-symmetric upwind matrix
+                D = pf.FaceVariable(mesh, 1.0)
+                def solve(c):
+                    phi = pf.CellVariable(mesh, ival(random.Random(7), dims, 1, 4) + 0.5); phi.BCs.right.fixedValue(1.0) if hasattr(phi.BCs, "right") else None
+                    Mu = pf.convectionUpwindTerm(u); Mt, Rt = pf.transientTerm(phi, 0.5, 1.0)
+                    pf.solvePDE(phi, [c(Mu), -pf.diffusionTerm(D), (c(Mt), Rt)])
+                    return np.array(phi._value, dtype=float)
+                ref = solve(lambda M: M)
+                for nm, c in conv:
+                    try:
+                        got = solve(c)
+                    except Exception as ex:
+                        ctx.violation(f"c04:{cname}:format-raise", f"{cname}: solvePDE with matrix terms given as {nm} raised {type(ex).__name__}: {ex}", dict(L, form=nm)); break
+                    n += 1
+                    if relsc(got, ref) > 1e-11:
+                        ctx.violation(f"c04:{cname}:format", f"{cname}: solvePDE with matrix terms given as {nm} does not solve the system of the csr_array form (rel {relsc(got, ref):.3g}): the term entered the system as another matrix", dict(L, form=nm)); break
+        except Exception as ex:
+            ctx.violation(f"c04:{cname}:format-harness", f"{cname}: sparse-format probe raised {type(ex).__name__}: {ex}", L)
+    return n
+
+
+def untracked_edits_c03(ctx, pf):
+    """boundary coefficient arrays changed through numpy operations that no setter sees (fill, np.copyto, in-place arithmetic on an alias,
+    out=, put): the boundary equations the next solvePDE uses and the boundary values it reports must both be those of the current arrays"""
+    import copy as _copy
+    n = 0
+    rng = random.Random(f"c03untracked-{ctx.seed}")
+    edits = [("c.fill(v)", lambda f, v: f.c.fill(v)), ("np.copyto(c, v)", lambda f, v: np.copyto(f.c, v)), ("alias = f.c; alias *= 0; alias += v", lambda f, v: (f.c.__imul__(0.0), f.c.__iadd__(v))),
+             ("np.multiply(c, 0, out=c); np.add(c, v, out=c)", lambda f, v: (np.multiply(f.c, 0.0, out=np.asarray(f.c)), np.add(f.c, v, out=np.asarray(f.c)))),
+             ("c.flat[:] = v", lambda f, v: f.c.flat.__setitem__(slice(None), v)), ("np.asarray(c)[...] = v", lambda f, v: np.asarray(f.c).__setitem__(Ellipsis, v))]
+    for cname in gen.CLASSES:
+        d = gen.DIM[cname]
+        fs = gen.mesh_case(rng, cname, nmax=3, nmin=2)
+        mesh = gen.build_mesh(pf, cname, fs)
+        dims = tuple(int(k) for k in mesh.dims)
+        side = "right" if d == 1 else ("top" if d == 2 else "front")
+        L = {"cls": cname, "faces": [list(map(float, f)) for f in fs], "side": side}
+        D = pf.FaceVariable(mesh, 1.0)
+        for ename, edit in edits:
+            for precalc in (True, False):
+                try:
+                    with np.errstate(all="ignore"):
+                        v = pf.CellVariable(mesh, ival(rng, dims, 1, 4) + 0.5, BCsTerm_precalc=precalc)
+                        getattr(v.BCs, side).fixedValue(1.0)
+                        pf.solvePDE(v, [pf.transientTerm(v, 0.5, 1.0), -pf.diffusionTerm(D)])
+                        edit(getattr(v.BCs, side), 4.0)
+                        fresh = pf.CellVariable(mesh, np.array(v.value), _copy.deepcopy(v.BCs))
+                        for w in (v, fresh):
+                            pf.solvePDE(w, [pf.transientTerm(w, 0.5, 1.0), -pf.diffusionTerm(D)])
+                    n += 1
+                    if not np.all(np.asarray(getattr(fresh.BCs, side).c) == 4.0):
+                        continue            # the edit did not take (not a supported way of writing on this numpy version)
+                    if relsc(np.array(v._value, dtype=float), np.array(fresh._value, dtype=float)) > 1e-10:
+                        ctx.violation(f"c03:{cname}:untracked-edit", f"{cname}: after `{ename}` on the '{side}' coefficient array (BCsTerm_precalc={precalc}) solvePDE does not use / report the current boundary data: result differs from a variable built from the same values and boundary conditions (rel {relsc(np.array(v._value, dtype=float), np.array(fresh._value, dtype=float)):.3g})", dict(L, edit=ename, precalc=precalc)); break
+                except Exception as ex:
+                    ctx.violation(f"c03:{cname}:untracked-edit-raise", f"{cname}: `{ename}` then solvePDE raised {type(ex).__name__}: {ex}", dict(L, edit=ename)); break
+    return n
+
+
+def odd_meshes(rng, cname, kind):
+    """face arrays the random generator never produces: nearly uniform spacing (relative perturbations 1e-8 .. 1e-3 of the cell width), a thin
+    graded domain far from the origin, and (for identities that are purely algebraic) a DEscending first axis"""
+    d = gen.DIM[cname]
+    fs = []
+    for a in range(d):
+        ak = gen.AXKIND[cname][a]
+        n = rng.randint(3, 6)
+        if kind.startswith("near-uniform"):
+            eps = float(kind.split(":")[1])
+            h = 0.25 if ak in ("ang", "pol") else 0.5
+            x0 = {"len": 0.0, "rad": 0.5, "ang": 0.0, "pol": 0.25}[ak]
+            f = x0 + h * np.arange(n + 1) + h * eps * np.array([rng.uniform(-1, 1) for _ in range(n + 1)])
+        elif kind.startswith("far-origin"):
+            ratio = float(kind.split(":")[1])
+            steps = np.array([rng.choice([0.125, 0.25, 0.5, 1.0]) for _ in range(n)])
+            if ak in ("len", "rad"):
+                w = steps.sum(); f = w * ratio + np.concatenate([[0.0], np.cumsum(steps)])
+            else:
+                f = np.concatenate([[0.0], np.cumsum(steps)]) * (0.25 / steps.sum() * n) * 0.2
+        else:
+            f = gen.faces(rng, ak, n)
+        fs.append(np.array(f, dtype=float))
+    if kind == "descending":
+        fs[0] = fs[0][::-1].copy()
+    return fs
+
+
+def odd_meshes_c10(ctx, pf):
+    n = 0
+    rng = random.Random(f"c10odd-{ctx.seed}")
+    for cname in gen.CLASSES:
+        d = gen.DIM[cname]
+        for kind in ("near-uniform:1e-3", "near-uniform:1e-5", "near-uniform:3e-6", "near-uniform:1e-7", "near-uniform:1e-9", "far-origin:1e2", "far-origin:1e4", "far-origin:1e6"):
+            fs = odd_meshes(rng, cname, kind)
+            L = {"cls": cname, "kind": kind, "faces": [list(map(float, f)) for f in fs]}
+            try:
+                mesh = gen.build_mesh(pf, cname, fs)
+                cs = [mesh.cellsize._x, mesh.cellsize._y, mesh.cellsize._z][:d]
+                cc = [mesh.cellcenters._x, mesh.cellcenters._y, mesh.cellcenters._z][:d]
+                fc = [mesh.facecenters._x, mesh.facecenters._y, mesh.facecenters._z][:d]
+                n += 1
+                for a in range(d):
+                    f = fs[a]; want = f[1:] - f[:-1]
+                    got = np.asarray(cs[a], dtype=float)
+                    w = float(np.max(np.abs(want)))
+                    if got.shape != (len(f) + 1,) or np.max(np.abs(got[1:-1] - want)) > 1e-9 * w or abs(got[0] - want[0]) > 1e-9 * w or abs(got[-1] - want[-1]) > 1e-9 * w:
+                        ctx.violation(f"c10:{cname}:odd-mesh-sizes", f"{cname}: on a {kind} grid the cell sizes of axis {a} are not the face differences (max deviation {float(np.max(np.abs(got[1:-1] - want))) / w:.3g} of the largest cell)", dict(L, axis=a)); break
+                    if np.max(np.abs(np.asarray(fc[a], dtype=float) - f)) > 0 or np.max(np.abs(np.asarray(cc[a], dtype=float) - 0.5 * (f[1:] + f[:-1]))) > 1e-12 * (1 + np.max(np.abs(f))):
+                        ctx.violation(f"c10:{cname}:odd-mesh-centres", f"{cname}: on a {kind} grid faces / centres of axis {a} are not as given / midway", dict(L, axis=a)); break
+            except Exception as ex:
+                ctx.violation(f"c10:{cname}:odd-mesh-raise", f"{cname}: a {kind} grid raised {type(ex).__name__}: {ex}", L)
+    return n
+
+
+def odd_meshes_c01(ctx, pf):
+    """conservation on the same unusual grids: interior face fluxes cancel with respect to cellvolume"""
+    from common import volumes
+    n = 0
+    rng = random.Random(f"c01odd-{ctx.seed}")
+    for cname in gen.CLASSES:
+        d = gen.DIM[cname]
+        for kind in ("near-uniform:1e-3", "near-uniform:3e-6", "near-uniform:1e-7", "far-origin:1e3"):
+            fs = odd_meshes(rng, cname, kind)
+            fs = [np.concatenate([f, f[-1] + (f[-1] - f[-2]) * np.arange(1, 4)]) if len(f) < 7 else f for f in fs]     # at least 6 cells per axis
+            if any(gen.AXKIND[cname][a] in ("ang", "pol") and fs[a][-1] > 3.0 for a in range(d)):
+                continue
+            L = {"cls": cname, "kind": kind, "faces": [list(map(float, f)) for f in fs]}
+            try:
+                with np.errstate(all="ignore"):
+                    mesh = gen.build_mesh(pf, cname, fs)
+                    V = volumes(pf, mesh, cname)
+                    shape = full_shape(mesh)
+                    ph = np.zeros(shape); inner = tuple(slice(3, -3) for _ in shape)
+                    ph[inner] = np.array([rng.uniform(0.5, 2.0) for _ in range(int(np.prod(ph[inner].shape)))]).reshape(ph[inner].shape)
+                    phi = pf.CellVariable(mesh, ph); v = phi._value.ravel()
+                    Dv = mkface(pf, mesh, [ival(rng, s, 1, 3) + 0.5 for s in face_shapes(mesh)])
+                    uv = mkface(pf, mesh, [ival(rng, s, -2, 2) + 0.25 for s in face_shapes(mesh)])
+                    terms = [("diffusionTerm", pf.diffusionTerm(Dv) @ v), ("convectionTerm", pf.convectionTerm(uv) @ v), ("convectionUpwindTerm", pf.convectionUpwindTerm(uv) @ v)]
+                for what, t in terms:
+                    n += 1
+                    ti = np.asarray(t).reshape(shape)[tuple(slice(1, -1) for _ in shape)]
+                    tot = float(np.sum(V * ti)); scale = float(np.sum(np.abs(V * ti))) + 1e-300
+                    if abs(tot) > 1e-10 * scale:
+                        ctx.violation(f"c01:{cname}:odd-mesh:{what}", f"{cname}: {what} on a {kind} grid: interior face fluxes do not cancel with respect to cellvolume (relative {abs(tot) / scale:.3g})", dict(L, what=what)); break
+            except Exception as ex:
+                ctx.violation(f"c01:{cname}:odd-mesh-raise", f"{cname}: conservation probe on a {kind} grid raised {type(ex).__name__}: {ex}", L)
+    return n
+
+
+def descending_c05(ctx, pf):
+    """the identities of C05 are algebraic: they also hold on a grid whose first axis is given in DEscending order (signed cell sizes), on which
+    the library computes as on any other face array; if the library refuses such a grid, nothing is checked"""
+    from probes import fmul
+    n = 0
+    rng = random.Random(f"c05desc-{ctx.seed}")
+    for cname in gen.CLASSES:
+        d = gen.DIM[cname]
+        fs = odd_meshes(rng, cname, "descending")
+        L = {"cls": cname, "kind": "descending first axis", "faces": [list(map(float, f)) for f in fs]}
+        try:
+            with np.errstate(all="ignore"):
+                mesh = gen.build_mesh(pf, cname, fs)
+                phi = pf.CellVariable(mesh, gen.cell_array(rng, mesh)); v = phi._value.ravel()
+                D = mkface(pf, mesh, [ival(rng, s, 1, 3) + 0.5 for s in face_shapes(mesh)]); u = mkface(pf, mesh, [ival(rng, s, -2, 2) + 0.25 for s in face_shapes(mesh)])
+                pairs = [("diffusionTerm vs divergenceTerm(D*gradientTerm)", pf.diffusionTerm(D) @ v, pf.divergenceTerm(fmul(pf, mesh, D, pf.gradientTerm(phi)))),
+                         ("convectionTerm vs divergenceTerm(u*linearMean)", pf.convectionTerm(u) @ v, pf.divergenceTerm(fmul(pf, mesh, u, pf.linearMean(phi)))),
+                         ("convectionUpwindTerm vs divergenceTerm(u*upwindMean)", pf.convectionUpwindTerm(u) @ v, pf.divergenceTerm(fmul(pf, mesh, u, pf.upwindMean(phi, u))))]
+        except Exception:
+            continue
+        shape = full_shape(mesh); inn = tuple(slice(1, -1) for _ in shape)
+        for what, a, b in pairs:
+            n += 1
+            A = np.asarray(a).reshape(shape)[inn]; B = np.asarray(b).reshape(shape)[inn]
+            if np.all(np.isfinite(A)) and np.all(np.isfinite(B)) and relsc(A, B) > 1e-10:
+                ctx.violation(f"c05:{cname}:descending", f"{cname}: {what} on a grid whose first axis is given in descending order: max relative deviation {relsc(A, B):.3g}", dict(L, what=what)); break
+    return n
+
+
+def huge_1d_c12(ctx, pf):
+    """one backward-Euler step on a Grid1D with 600 000 cells and a tiny dt (field with a large offset): it must satisfy the cell equation and
+    agree with the explicit step to O(dt^2) -- size-dependent solver paths (iterative methods with relative stopping tests) show here"""
+    n = 0
+    N = 600000
+    mesh = pf.Grid1D(N, 1.0)
+    x = np.asarray(mesh.cellcenters._x, dtype=float)
+    with np.errstate(all="ignore"):
+        old = pf.CellVariable(mesh, 300.0 + 10.0 * np.cos(4 * np.pi * x))
+        D = pf.FaceVariable(mesh, 1.0); dt = 1e-11
+        Md = pf.diffusionTerm(D)
+        imp = pf.CellVariable(mesh, np.array(old.value)); imp_old = np.array(imp._value, dtype=float)
+        pf.solvePDE(imp, [pf.transientTerm(imp, dt, 1.0), -Md])
+        rhs = Md @ np.asarray(old._value, dtype=float).ravel()
+        exp_ = pf.solveExplicitPDE(old, dt, rhs)
+    n += 1
+    step = float(np.max(np.abs(np.asarray(exp_.value) - np.asarray(old.value))))
+    dev = float(np.max(np.abs(np.asarray(imp.value) - np.asarray(exp_.value))))
+    res = float(np.max(np.abs((np.asarray(imp._value) - imp_old)[1:-1] / dt - (Md @ np.asarray(imp._value, dtype=float).ravel())[1:-1])))
+    rate = float(np.max(np.abs(rhs[1:-1])))
+    # (the cell equation itself cannot be tested here: (new - old)/dt loses all digits to cancellation at dt = 1e-11 next to values of 300)
+    if not (dev <= 1e-3 * step):
+        ctx.violation("c12:Grid1D:huge", f"Grid1D with {N} cells, dt = {dt:g}: the implicit step differs from the explicit one by {dev:.3g} although the step itself is only {step:.3g} (agreement to O(dt^2) expected)",
+                      {"cls": "Grid1D", "cells": N, "dt": dt, "profile": "300 + 10 cos(4 pi x)"})
+    return n
+
+
+extra_c15 = _chain(extra_c15, scribble_results_c15)
+extra_c14 = _chain(extra_c14, inplace_ops_c14)
+extra_c04 = _chain(extra_c04, sparse_formats_c04)
+extra_c03 = _chain(extra_c03, untracked_edits_c03)
+extra_c10 = _chain(extra_c10, odd_meshes_c10)
+extra_c01 = _chain(extra_c01, odd_meshes_c01)
+extra_c05 = _chain(extra_c05, descending_c05)
+extra_c12 = _chain(extra_c12, huge_1d_c12)
